@@ -186,3 +186,60 @@ pub fn gen_c19(tier: &str, seed: u64, out: &mut Vec<String>) {
         emit_fuzz_case(&mut rng, &temps, out);
     }
 }
+
+/// C20: everything is observed with error texts on; three families — fuzzed single instructions with a fully written
+/// state, program-level runs (limits, hooks, syscalls, traces), and runs in which only the registers the program uses are
+/// ever written (the constructor's random values stay in all others and must not influence anything observed).
+pub fn gen_c20(tier: &str, seed: u64, out: &mut Vec<String>) {
+    use crate::gen_prog::*;
+    let mut raw: Vec<String> = vec![];
+    let t = probe(1, 200_000);
+    let temps: Vec<Vec<u8>> = t.by_code.values().flat_map(|v| v.iter().cloned()).collect();
+    let mut rng = Rng::new(seed ^ 0xC20);
+    let n = if tier == "thorough" { 8_000 } else { 600 };
+    for _ in 0..n {
+        emit_fuzz_case(&mut rng, &temps, &mut raw);
+    }
+    let sub = if tier == "thorough" { "thorough" } else { "quick" };
+    gen_c11(sub, seed ^ 0x2011, &mut raw);
+    gen_c12(sub, seed ^ 0x2012, &mut raw);
+    gen_c13(sub, seed ^ 0x2013, &mut raw);
+    gen_c18(sub, seed ^ 0x2018, &mut raw);
+    // partially written register files
+    let m = if tier == "thorough" { 3_000 } else { 300 };
+    for _ in 0..m {
+        let plen = 2 + rng.below(12) as usize;
+        let prog = random_program(&mut rng, plen, true);
+        let (code, _) = assemble(&prog, CODE);
+        emit_new(&mut raw, &code, CODE);
+        raw.push("stack 200".into());
+        for r in ["RAX", "RCX", "RDX", "RBX"] {
+            raw.push(format!("rw 64 {} {:x}", r, rng.val()));
+        }
+        raw.push(format!("maxinstr {:x}", 1 + rng.below(40)));
+        let by_step = rng.chance(1, 2);
+        if by_step {
+            for _ in 0..(plen + 4) {
+                raw.push("step".into());
+                raw.push("state".into());
+            }
+        } else {
+            raw.push("execute 1000".into());
+            raw.push("state".into());
+        }
+        for r in ["RAX", "RCX", "RDX", "RBX", "RSP", "RIP"] {
+            raw.push(format!("rr 64 {}", r));
+        }
+        raw.push("areas".into());
+        raw.push("trace".into());
+        raw.push("callstack".into());
+        raw.push("render".into());
+    }
+    for l in raw {
+        let is_new = l.starts_with("new ") || l == "new";
+        out.push(l);
+        if is_new {
+            out.push("errtext on".into());
+        }
+    }
+}
